@@ -130,6 +130,10 @@ SEED_EXPECT={
  "C11-6":"R-PANIC/P2g","C12-6":"R-PROV/V2s","C13-6":"R-PROV/exportscope","C14-6":"R-DET/N1","C15-6":"R-SYM/S5v",
  "C16-6":"R-FLOW/closure","C17-6":"R-FLOW/required","C18-6":"R-ERR/E4u","C19-6":"R-CONST/disjoint","C20-6":"R-PANIC/P2",
  "C16-4":"R-SYM/entityref","C19-4":"R-POS/attach","C09-4":"R-SYM/headerdesc",
+ "C01-7":"R-FLOW/appendalias","C02-7":"R-FLOW/deps","C03-7":"R-ERR/E4o","C04-7":"R-CONST/srcpath","C05-7":"R-CONST/commentlines",
+ "C06-7":"R-LOCK/L6","C07-7":"R-PROV/valuename","C08-7":"R-WIRE/W3","C09-7":"R-COVER/tagmark","C10-7":"R-LOCK/L2",
+ "C11-7":"R-POS/lexerr","C12-7":"R-SYM/S4","C13-7":"R-PROV/filename","C14-7":"R-SYM/S9","C15-7":"R-SYM/S5v",
+ "C16-7":"R-PANIC/P4w","C17-7":"R-SYM/S9w","C18-7":"R-ERR/rollback","C19-7":"R-CONST/lines","C20-7":"rendering idiom",
 }
 # seeds kept on record that no rule is meant to see (see DESIGN.md §10.4): not part of the self-test
 UNCOVERED=set()
